@@ -1,9 +1,14 @@
 """Model zoo for engine B: real flowjax models built deterministically from a JSON spec.
 
 The *structure* (and hence every compiled program) is a function of the spec minus its
-``seed`` / ``args``; array values come from ``seed``. Everything that cannot be constructed
-in this sandbox (anything using ``WeightNormalization``: BlockAutoregressiveNetwork,
-block_neural_autoregressive_flow, triangular_spline_flow) is deliberately absent.
+``seed`` / ``args``; array values come from ``seed``.
+
+``WeightNormalization`` cannot be constructed under ``filter_vmap`` with the installed equinox
+(so the factories ``block_neural_autoregressive_flow`` / ``triangular_spline_flow`` fail), but it
+constructs eagerly. The kinds ``bnaf`` and ``tri_spline`` therefore build the factories' layers
+one by one with the public constructors and either chain them or stack their array leaves and
+scan over them -- the stacked tree is what ``filter_vmap`` would have produced (same node
+structure, same ``_dummy`` batch shape on the nested ``BijectionReparam`` wrappers).
 """
 
 from __future__ import annotations
@@ -151,6 +156,26 @@ def build(spec):
         layers = eqx.filter_vmap(make_layer)(jr.split(jr.PRNGKey(seed), L))
         sc = B.Scan(layers)
         return D.Transformed(base, B.Invert(sc) if spec.get("invert", True) else sc)
+    if kind in ("bnaf", "tri_spline"):
+        L = spec.get("layers", 1)
+        cond_dim = spec.get("cond_dim")
+        keys = jr.split(jr.PRNGKey(seed), L)
+        if kind == "bnaf":
+            layers = [_bnaf_layer(k, dim, cond_dim, spec) for k in keys]
+        else:
+            layers = [_tri_spline_layer(k, dim, cond_dim, spec) for k in keys]
+        mode = spec.get("mode", "single")
+        if mode == "single":
+            bij = layers[0]
+        elif mode == "chain":
+            bij = B.Chain(layers)
+        else:  # "scan": the structure filter_vmap(make_layer)(keys) has in the factories
+            parts = [eqx.partition(l, eqx.is_array) for l in layers]
+            import jax
+
+            stacked = jax.tree_util.tree_map(lambda *xs: jnp.stack(xs), *[p[0] for p in parts])
+            bij = B.Scan(eqx.combine(stacked, parts[0][1]))
+        return D.Transformed(base, B.Invert(bij) if spec.get("invert", True) else bij)
     if kind == "container":
         v = spec["variant"]
         aff = lambda d: B.Affine(f32(r.normal(size=d) * 0.3), f32(_loguniform(r, 0.5, 2.0, d)))  # noqa: E731
@@ -212,6 +237,63 @@ def build(spec):
             kw = {"width_size": spec.get("width", 3), "depth": spec.get("depth", 1)} if spec.get("cond_dim") else {}
             return F.planar_flow(key, negative_slope=spec.get("negative_slope"), **common, **kw)
     raise KeyError(f"unknown model kind {kind!r}")
+
+
+def _act_x_plus_tanh(x):
+    import jax.numpy as jnp
+
+    return x + jnp.tanh(x)
+
+
+def _default_permute(bij, dim, key):
+    """flowjax.flows._add_default_permute, through public constructors."""
+    import jax.numpy as jnp
+    import jax.random as jr
+    from flowjax import bijections as B
+
+    if dim == 1:
+        return bij
+    if dim == 2:
+        return B.Chain([bij, B.Flip((dim,))]).merge_chains()
+    return B.Chain([bij, B.Permute(jr.permutation(key, jnp.arange(dim)))]).merge_chains()
+
+
+def _bnaf_layer(key, dim, cond_dim, spec):
+    import jax.random as jr
+    from flowjax import bijections as B
+
+    act = {None: None, "leaky1": B.LeakyTanh(1.0), "leaky8": B.LeakyTanh(8.0), "tanh": B.Tanh(), "callable": _act_x_plus_tanh}[spec.get("activation")]
+    bij_key, perm_key = jr.split(key)
+    b = B.BlockAutoregressiveNetwork(bij_key, dim=dim, cond_dim=cond_dim, depth=spec.get("depth", 1), block_dim=spec.get("block_dim", 2), activation=act)
+    if spec.get("mode", "single") == "single":
+        return b
+    return _default_permute(b, dim, perm_key)
+
+
+def _tri_spline_layer(key, dim, cond_dim, spec):
+    """One layer of flowjax.flows.triangular_spline_flow (weight-normalised triangular affine behind
+    leaky-tanh / spline / inverse leaky-tanh), built eagerly."""
+    import equinox as eqx
+    import jax.numpy as jnp
+    import jax.random as jr
+    from flowjax import bijections as B
+    from flowjax.wrappers import WeightNormalization
+    from jax.nn.initializers import glorot_uniform
+
+    lt_key, perm_key, cond_key = jr.split(key, 3)
+    weights = glorot_uniform()(lt_key, (dim, dim))
+    tri = B.TriangularAffine(jnp.zeros(dim), weights.at[jnp.diag_indices(dim)].set(1))
+    tri = eqx.tree_at(lambda t: t.triangular, tri, replace_fn=WeightNormalization)
+    mv = float(spec.get("tanh_max_val", 3.0))
+    knots = spec.get("knots", 4)
+    spl = eqx.filter_vmap(lambda: B.RationalQuadraticSpline(knots=knots, interval=1), axis_size=dim)()
+    bijs = [B.LeakyTanh(mv, (dim,)), B.Vmap(spl, in_axes=eqx.if_array(0)), B.Invert(B.LeakyTanh(mv, (dim,))), tri]
+    if cond_dim is not None:
+        bijs.append(B.AdditiveCondition(eqx.nn.Linear(cond_dim, dim, use_bias=False, key=cond_key), (dim,), (cond_dim,)))
+    bij = B.Chain(bijs)
+    if spec.get("mode", "single") == "single":
+        return bij
+    return _default_permute(bij, dim, perm_key)
 
 
 def _vspline(spec, dim):
@@ -280,3 +362,9 @@ def model_dims(spec):
         shape = {"concat": (1 + max(d - 1, 1),), "stack": (2, d), "partial": (d + 1,), "reshape": (2, d), "embed": (d,), "additive": (d,)}[v]
         return shape, {"embed": 3, "additive": 2}.get(v)
     return (spec.get("dim", 2),), spec.get("cond_dim")
+
+
+def numeric_inverse_only(spec):
+    """True for models one of whose directions runs the bisection inverter (never called by the harness:
+    it need not terminate for a bounded activation or a flat, underflowed diagonal)."""
+    return spec.get("kind") == "bnaf"
